@@ -53,6 +53,9 @@ func execSeq[K comparable, V, E any](in *Interp[K, V], el *elem[E], st Step) map
 
 	if st.Self == 0 {
 		switch st.K + "." + st.M {
+		case "GoArray.NewNil":
+			var arr []E // nil: an empty Go slice that was never made
+			return in.add("GoArray", el.cls, &arr)
 		case "GoArray.New":
 			var lit = toSeq(arg(0))
 			var arr = make([]E, len(lit))
@@ -379,6 +382,9 @@ func (in *Interp[K, V]) execAssoc(st Step) map[string]any {
 	}
 	if st.Self == 0 {
 		switch st.K + "." + st.M {
+		case "GoMap.NewNil":
+			var m map[K]V // nil: an empty Go map that was never made
+			return in.add("GoMap", 0, m)
 		case "GoMap.New":
 			var m = map[K]V{}
 			for _, p := range toSeq(arg(0)) {
